@@ -58,7 +58,7 @@ SPEC = {
     "components_real": ["fakesnow/* incl. info_schema and the SHOW/DESCRIBE transforms", "sqlglot", "duckdb engine (in-memory or files in a scratch dir)"],
     "components_stubbed": ["caller threads", "process boundary for restart (instance closed and re-created in-process)"],
     "assumptions": ["statement-level atomicity"],
-    "mandatory_probes": {"any": ["observer_passes", "op_drop_table", "op_alter", "op_comment", "op_create_view", "restart", "two_databases"]},
+    "mandatory_probes": {"any": ["observer_passes", "op_drop_table", "op_alter", "op_comment", "op_create_view", "restart", "two_databases", "cross_database_ddl"]},
 }
 
 HAZARDS = ["internal_leak", "recreate", "rename_table", "ctas_clone", "account_scope_without_database", "replace"]
@@ -88,6 +88,9 @@ def gen(rng: Any, prop: str, tier: str) -> dict[str, Any]:
     for step in range(n):
         sid = rng.choice(["s0", "s1"]) if two else "s0"
         db = sess_db[sid]
+        if two and rng.random() < 0.3:
+            db = sess_db["s1" if sid == "s0" else "s0"]  # cross-database DDL: fully qualified names issued from the other database's session
+        home = db == sess_db[sid]
         my_schemas = sorted(s for d, s in schemas if d == db)
         kind = rng.choices(["create", "drop", "alter_add", "alter_drop", "alter_rename_col", "rename_table", "comment", "view", "drop_view", "ctas", "clone", "schema", "restart"],
                            [12, 4, 4, 3, 3, 2, 5, 3, 1, 2, 2, 2, 2 if storage == "db_path" and not restarted and step > 2 else 0])[0]
@@ -106,7 +109,7 @@ def gen(rng: Any, prop: str, tier: str) -> dict[str, Any]:
             cols = new_cols()
             comment = f"cm{step}" if rng.random() < 0.5 else None
             coldefs = ", ".join(f"{c} {t}{' NOT NULL' if nn else ''}" for c, t, nn in cols)
-            ref = name if sc == "S1" and rng.random() < 0.5 else f"{db}.{sc}.{name}"
+            ref = name if sc == "S1" and home and rng.random() < 0.5 else f"{db}.{sc}.{name}"
             if ref == name and sc != _cur_schema(ops, sid):
                 ref = f"{db}.{sc}.{name}"
             sql = f"CREATE {'OR REPLACE ' if replace else ''}TABLE {ref} ({coldefs})" + (f" COMMENT = '{comment}'" if comment else "")
@@ -456,6 +459,8 @@ def run(case: dict[str, Any]) -> dict[str, Any]:
                 probes["op_" + ("alter" if kind.startswith("alter") else kind)] = probes.get("op_" + ("alter" if kind.startswith("alter") else kind), 0) + 1
             if len(m.dbs) > 1:
                 probes["two_databases"] = probes.get("two_databases", 0) + 1
+            if op["k"] == "exec" and op.get("fq") and world.conns[op["s"]].database != op["fq"][0]:
+                probes["cross_database_ddl"] = probes.get("cross_database_ddl", 0) + 1
             if op["k"] == "connect" and len(world.conns) < (2 if cfg["two"] else 1):
                 continue  # after a restart wait until every session is back before observing
             violation = observe_and_check(world, m, cfg["hazards"], kind, observers)
